@@ -913,6 +913,8 @@ func (s *AbsfsNFS) Export(mountPath string, port int) error {
 		ReadOnly: s.policy.Load().ReadOnly,
 		Port:     port,
 		Hostname: "localhost",
+		// Standard NFS clients frame every RPC with RFC 1831 record marking
+		UseRecordMarking: true,
 	})
 	if err != nil {
 		return err
